@@ -16,6 +16,13 @@ struct badpg { int as; uint64_t a; int st; };	/* st: status, or 1000 = OK with p
 static struct badpg bad[256]; static unsigned nbad;
 static unsigned long rcaps;
 static unsigned maxdepth, npages, ncalls;
+static unsigned gp_depth, gp_maxdepth;		/* get-page callbacks in progress / deepest nesting */
+#define GP_RUNAWAY 200				/* far above any limit the library may enforce */
+/* re-entrant get-page callback: before page <pfn> is delivered the 64-bit object at reent_as:<addr> is read
+ * through the same context (think of a frame table that lives in the memory it describes) */
+struct reent { uint64_t pfn, addr; };
+static struct reent reent[64]; static unsigned nreent; static int reent_as;
+static const char *curline = "";
 static addrxlat_fulladdr_t seen;
 static addrxlat_status cbst;
 
@@ -44,14 +51,43 @@ static unsigned depth_now(addrxlat_ctx_t *ctx)
 static void put_page(const addrxlat_buffer_t *buf) { free((void *)buf->ptr); }
 static addrxlat_status get_page(const addrxlat_cb_t *cb, addrxlat_buffer_t *buf)
 {
+	/* remember what was asked for: a nested read may recycle the very slot `buf` points into */
+	const addrxlat_fulladdr_t want = buf->addr;
+	const addrxlat_addr_t page = want.addr & ~(addrxlat_addr_t)0xfff;
 	unsigned char *p; unsigned i;
 	++npages;
-	if ((int)buf->addr.as < 0 || buf->addr.as > 2)
+	if (++gp_depth > gp_maxdepth) gp_maxdepth = gp_depth;
+	if (gp_depth > GP_RUNAWAY) {
+		/* unbounded recursion: say so while there is stack left */
+		printf("> RUNAWAY get_page nested %u deep for %d:%" PRIu64 " during `%s`\n", gp_depth, (int)want.as,
+		       (uint64_t)want.addr, curline);
+		fflush(stdout);
+		_exit(3);
+	}
+	if ((int)want.as < 0 || want.as > 2) {
+		--gp_depth;
 		return addrxlat_ctx_err(cb->priv, ADDRXLAT_ERR_NODATA, "no such address space");
-	buf->addr.addr &= ~(addrxlat_addr_t)0xfff;
+	}
+	for (i = 0; i < nreent; ++i)
+		if (reent[i].pfn == want.addr >> 12) {
+			addrxlat_meth_t m; addrxlat_step_t step; addrxlat_status st;
+			memset(&m, 0, sizeof m); memset(&step, 0, sizeof step);
+			m.kind = ADDRXLAT_MEMARR; m.target_as = ADDRXLAT_KPHYSADDR;
+			m.param.memarr.base.as = reent_as; m.param.memarr.base.addr = reent[i].addr;
+			m.param.memarr.shift = 0; m.param.memarr.elemsz = 8; m.param.memarr.valsz = 8;
+			step.ctx = cb->priv; step.sys = NULL; step.meth = &m; step.base.addr = 0;
+			st = addrxlat_walk(&step);
+			if (st != ADDRXLAT_OK) {
+				--gp_depth;
+				return addrxlat_ctx_err(cb->priv, st, "frame table entry not readable");
+			}
+			break;
+		}
 	for (i = nbad; i-- > 0; )
-		if (bad[i].as == (int)buf->addr.as && bad[i].a == buf->addr.addr) {
+		if (bad[i].as == (int)want.as && bad[i].a == page) {
+			--gp_depth;
 			if (bad[i].st == 1000) {	/* success without data */
+				buf->addr.as = want.as; buf->addr.addr = page; buf->ptr = NULL;
 				buf->size = 4096; buf->byte_order = ADDRXLAT_HOST_ENDIAN;
 				return ADDRXLAT_OK;
 			}
@@ -59,13 +95,15 @@ static addrxlat_status get_page(const addrxlat_cb_t *cb, addrxlat_buffer_t *buf)
 		}
 	p = malloc(4096);
 	for (i = 0; i < 1024; ++i) {
-		uint32_t v = cell(buf->addr.as, buf->addr.addr + 4 * i);
+		uint32_t v = cell(want.as, page + 4 * i);
 		if (be) { p[4*i] = v >> 24; p[4*i+1] = v >> 16; p[4*i+2] = v >> 8; p[4*i+3] = v; }
 		else { p[4*i] = v; p[4*i+1] = v >> 8; p[4*i+2] = v >> 16; p[4*i+3] = v >> 24; }
 	}
+	buf->addr.as = want.as; buf->addr.addr = page;
 	buf->ptr = p; buf->size = 4096;
 	buf->byte_order = be ? ADDRXLAT_BIG_ENDIAN : ADDRXLAT_LITTLE_ENDIAN;
 	buf->put_page = put_page;
+	--gp_depth;
 	return ADDRXLAT_OK;
 }
 static unsigned long read_caps(const addrxlat_cb_t *cb)
@@ -99,6 +137,37 @@ static addrxlat_status status_of(const char *s)
 }
 static addrxlat_lookup_elem_t tbls[ADDRXLAT_SYS_METH_NUM][64];
 
+/* ADDRXLAT_CUSTOM methods: the callback decides by (addr & mask) which arm applies;
+ * 'f': finishes the translation in the first step (remain = 0) in an address space of its own choice,
+ * 's': leaves one linear level to the library (which then stores target_as), 'e': fails */
+struct carm { int kind; int as; uint64_t off; addrxlat_status st; };
+struct cust { uint64_t mask; struct carm hit, miss; };
+static struct cust custs[ADDRXLAT_SYS_METH_NUM];
+static addrxlat_status c_first(addrxlat_step_t *step, addrxlat_addr_t addr)
+{
+	const struct cust *c = step->meth->param.custom.data;
+	const struct carm *a = (addr & c->mask) ? &c->hit : &c->miss;
+	switch (a->kind) {
+	case 'f':
+		step->base.as = a->as; step->base.addr = addr + a->off; step->remain = 0; step->elemsz = 0;
+		return ADDRXLAT_OK;
+	case 's':
+		step->base.as = a->as; step->base.addr = a->off; step->remain = 1; step->elemsz = 1; step->idx[0] = addr;
+		return ADDRXLAT_OK;
+	}
+	return addrxlat_ctx_err(step->ctx, a->st, "custom method refuses the address");
+}
+static addrxlat_status c_next(addrxlat_step_t *step) { return ADDRXLAT_OK; }
+static int parse_arm(const char *w, struct carm *a)
+{
+	char sn[32]; int as; uint64_t off;
+	memset(a, 0, sizeof *a);
+	if (sscanf(w, "f:%d:%" SCNu64, &as, &off) == 2) { a->kind = 'f'; a->as = as; a->off = off; return 1; }
+	if (sscanf(w, "s:%d:%" SCNu64, &as, &off) == 2) { a->kind = 's'; a->as = as; a->off = off; return 1; }
+	if (sscanf(w, "e:%31s", sn) == 1) { a->kind = 'e'; a->st = status_of(sn); if (a->st == ADDRXLAT_OK) a->st = ADDRXLAT_ERR_NOMETH; return 1; }
+	return 0;
+}
+
 int main(void)
 {
 	static char line[65536];
@@ -107,10 +176,11 @@ int main(void)
 	new_ctx();
 	setvbuf(stdout, NULL, _IOLBF, 0);
 	while (fgets(line, sizeof line, stdin)) {
-		char fmt[64], fields[256], tb[4096], sname[32]; int t, ras, tas, slot; uint64_t a, b; unsigned sh, es, vs, bb, n;
+		char fmt[64], fields[256], tb[4096], sname[32], w1[64], w2[64]; int t, ras, tas, slot; uint64_t a, b; unsigned sh, es, vs, bb, n;
 		unsigned long a0, o0, a1, o1, caps;
 		addrxlat_meth_t meth;
 		memset(&meth, 0, sizeof meth);
+		line[strcspn(line, "\n")] = 0; curline = line;
 		if (sscanf(line, "mem %" SCNu64 " %lu %lu %lu %lu %u", &a, &a0, &o0, &a1, &o1, &bb) == 6) {
 			seed = a; and_[0] = a0; or_[0] = o0; and_[1] = a1; or_[1] = o1; be = bb;
 			new_ctx();
@@ -124,8 +194,39 @@ int main(void)
 			if (nbad < 256) { bad[nbad].as = t; bad[nbad].a = a; bad[nbad].st = 1000; ++nbad; }
 			new_ctx();
 		} else if (!strncmp(line, "clr", 3)) {
-			novr = 0; nbad = 0;
+			novr = 0; nbad = 0; nreent = 0;
 			new_ctx();
+		} else if (!strncmp(line, "newctx", 6)) {
+			new_ctx();
+		} else if (!strncmp(line, "reent off", 9)) {
+			nreent = 0;
+		} else if (sscanf(line, "reent %d %4095s", &t, tb) == 2) {
+			char *p = tb;
+			reent_as = t; nreent = 0;
+			while (*p && nreent < 64) {
+				reent[nreent].pfn = strtoull(p, &p, 10); if (*p == ':') ++p;
+				reent[nreent].addr = strtoull(p, &p, 10); if (*p == ',') ++p; ++nreent;
+			}
+		} else if (sscanf(line, "rd %d %" SCNu64, &t, &a) == 2) {
+			addrxlat_meth_t m; addrxlat_step_t step; addrxlat_status st; struct read_cache_slot *sl; unsigned i;
+			memset(&m, 0, sizeof m); memset(&step, 0, sizeof step);
+			m.kind = ADDRXLAT_MEMARR; m.target_as = ADDRXLAT_KPHYSADDR;
+			m.param.memarr.base.as = t; m.param.memarr.base.addr = a;
+			m.param.memarr.shift = 0; m.param.memarr.elemsz = 8; m.param.memarr.valsz = 8;
+			step.ctx = ctx; step.sys = NULL; step.meth = &m; step.base.addr = 0;
+			npages = 0; gp_depth = gp_maxdepth = 0;
+			st = addrxlat_walk(&step);
+			printf("> rd %s", xstatus_name(st));
+			if (st == ADDRXLAT_OK) printf(" %" PRIu64, (uint64_t)step.raw.addr);
+			printf(" gp=%u nest=%u mru=", npages, gp_maxdepth);
+			for (i = 0, sl = ctx->cache.mru; i < READ_CACHE_SLOTS; ++i, sl = sl->next)
+				printf("%s%d", i ? "," : "", (int)(sl - ctx->cache.slot));
+			printf(" slots=");
+			for (i = 0; i < READ_CACHE_SLOTS; ++i) {
+				const addrxlat_buffer_t *b = &ctx->cache.slot[i].buffer;
+				printf("%s%d:%" PRIu64 ":%zu:%d", i ? ";" : "", (int)b->addr.as, (uint64_t)b->addr.addr, b->size, b->ptr != NULL);
+			}
+			putchar('\n');
 		} else if (!strncmp(line, "newsys", 6)) {
 			addrxlat_sys_decref(sys); sys = addrxlat_sys_new(); nosys = 0;
 			new_ctx();
@@ -141,6 +242,13 @@ int main(void)
 			meth.param.pgt.pf.pte_format = addrxlat_pte_format(fmt);
 			while (*p && n < ADDRXLAT_FIELDS_MAX) { meth.param.pgt.pf.fieldsz[n++] = strtoul(p, &p, 10); if (*p == ',') ++p; }
 			meth.param.pgt.pf.nfields = n;
+			addrxlat_sys_set_meth(sys, slot, &meth);
+		} else if (sscanf(line, "meth %d custom %d %" SCNu64 " %63s %63s", &slot, &t, &a, w1, w2) == 5) {
+			meth.kind = ADDRXLAT_CUSTOM; meth.target_as = t;
+			custs[slot].mask = a;
+			if (!parse_arm(w1, &custs[slot].hit) || !parse_arm(w2, &custs[slot].miss)) puts("> bad-op");
+			meth.param.custom.first_step = c_first; meth.param.custom.next_step = c_next;
+			meth.param.custom.data = &custs[slot];
 			addrxlat_sys_set_meth(sys, slot, &meth);
 		} else if (sscanf(line, "meth %d linear %d %" SCNu64, &slot, &t, &a) == 3) {
 			meth.kind = ADDRXLAT_LINEAR; meth.target_as = t; meth.param.linear.off = a;
@@ -189,18 +297,18 @@ int main(void)
 			addrxlat_op_ctl_t ctl; addrxlat_fulladdr_t fa; addrxlat_status st;
 			ctl.ctx = ctx; ctl.sys = nosys ? NULL : sys; ctl.op = the_op; ctl.data = NULL; ctl.caps = caps;
 			fa.as = t; fa.addr = a; cbst = status_of(sname);
-			maxdepth = npages = ncalls = 0;
+			maxdepth = npages = ncalls = 0; gp_depth = gp_maxdepth = 0;
 			st = addrxlat_op(&ctl, &fa);
 			printf("> op %s calls=%u", xstatus_name(st), ncalls);
 			if (ncalls) printf(" %d %" PRIu64, (int)seen.as, (uint64_t)seen.addr);
-			printf(" | depth=%u pages=%u left=%u\n", maxdepth, npages, depth_now(ctx));
+			printf(" | depth=%u pages=%u left=%u nest=%u\n", maxdepth, npages, depth_now(ctx), gp_maxdepth);
 		} else if (sscanf(line, "conv %d %d %" SCNu64, &tas, &t, &a) == 3) {
 			addrxlat_fulladdr_t fa; addrxlat_status st;
 			fa.as = t; fa.addr = a;
-			maxdepth = npages = 0;
+			maxdepth = npages = 0; gp_depth = gp_maxdepth = 0;
 			st = addrxlat_fulladdr_conv(&fa, tas, ctx, nosys ? NULL : sys);
-			printf("> conv %s %d %" PRIu64 " | depth=%u pages=%u left=%u\n", xstatus_name(st), (int)fa.as, (uint64_t)fa.addr,
-			       maxdepth, npages, depth_now(ctx));
+			printf("> conv %s %d %" PRIu64 " | depth=%u pages=%u left=%u nest=%u\n", xstatus_name(st), (int)fa.as, (uint64_t)fa.addr,
+			       maxdepth, npages, depth_now(ctx), gp_maxdepth);
 		} else
 			puts("> bad-op");
 	}
